@@ -17,6 +17,7 @@ import (
 	"math/rand"
 	"os"
 	"path/filepath"
+	"time"
 
 	"github.com/glowlabs-org/gca-backend/server"
 
@@ -159,6 +160,22 @@ func (w *world) judge(d []byte, class string, now uint32, before *server.VerifSn
 	ok, reason, rep := false, "length", refenc.Report{}
 	if eff != nil {
 		ok, reason, rep = w.acceptable(eff, now, before)
+	}
+	if viaSocket && ok && diff.Empty() && before.Reports[rep.ID] != nil {
+		// The socket barrier counts completed datagrams of this process' listeners; a stray
+		// datagram of another process aimed at a reused port can satisfy it early. Before an
+		// acceptable datagram is judged to have had no effect, give the listener time.
+		idx := int(rep.Slot - before.Offset)
+		prev := before.Reports[rep.ID][idx]
+		if prev.PowerOutput != 1 && drv.RefReport(prev) != rep {
+			for i := 0; i < 200 && diff.Empty(); i++ {
+				time.Sleep(10 * time.Millisecond)
+				after = w.S.VerifSnapshot(true)
+				logAfter = w.ReadFile("equipment-reports.dat")
+				diff = drv.DiffSnap(before, after)
+			}
+			w.r.Count("socket_barrier_rechecks", 1)
+		}
 	}
 	if len(eff) == 80 {
 		if _, known := w.auth[rep.ID]; known || w.banned[rep.ID] {
